@@ -153,3 +153,6 @@ def check(ctx):
     r_provenance(ctx)
     r_delivery(ctx)
     satisfy.r_finalizers(ctx, 'R05.6')
+    if ctx.tier == 'thorough':
+        from .. import witness
+        witness.run(ctx, 'R05.W', ['W1', 'W3'])
